@@ -22,6 +22,8 @@ pub struct Tally {
 	pub evaluations: u64,
 	pub distinct: HashSet<u64>,
 	pub counters: BTreeMap<String, u64>,
+	/// metrics merged by maximum instead of by sum
+	pub maxes: BTreeMap<String, u64>,
 	pub samples: Vec<Value>,
 	pub bad: BTreeMap<String, (u64, Bad)>,
 	pub states: u64,
@@ -36,6 +38,10 @@ impl Tally {
 	}
 	pub fn add(&mut self, key: &str, n: u64) {
 		*self.counters.entry(key.to_string()).or_insert(0) += n;
+	}
+	pub fn max(&mut self, key: &str, v: u64) {
+		let e = self.maxes.entry(key.to_string()).or_insert(0);
+		*e = (*e).max(v);
 	}
 	pub fn nontrivial(&mut self, h: u64) {
 		self.distinct.insert(h);
@@ -60,6 +66,10 @@ impl Tally {
 		self.distinct.extend(o.distinct);
 		for (k, v) in o.counters {
 			*self.counters.entry(k).or_insert(0) += v;
+		}
+		for (k, v) in o.maxes {
+			let e = self.maxes.entry(k).or_insert(0);
+			*e = (*e).max(v);
 		}
 		for s in o.samples {
 			if self.samples.len() < 12 {
@@ -207,6 +217,7 @@ pub fn finish(ctx: &Ctx, out: CheckOutput) -> i32 {
 	cov.insert("capped_explorations".into(), json!(t.capped));
 	cov.insert("bounds".into(), out.bounds.clone());
 	cov.insert("counters".into(), json!(t.counters));
+	cov.insert("maxima".into(), json!(t.maxes));
 	cov.insert("known_findings_matched".into(), Value::Array(known_list));
 	cov.insert("violations_new".into(), Value::Array(viol_list));
 	cov.insert(
@@ -247,6 +258,9 @@ pub fn finish(ctx: &Ctx, out: CheckOutput) -> i32 {
 	);
 	for (k, v) in &t.counters {
 		println!("    {k} = {v}");
+	}
+	for (k, v) in &t.maxes {
+		println!("    max {k} = {v}");
 	}
 	if !machinery_err.is_empty() {
 		for m in machinery_err {
